@@ -36,8 +36,9 @@ func init() {
 		if err != nil {
 			return "err-evaluate"
 		}
-		cache := newMemCache()
-		att := type3.NewRateLimitedAttester(cache)
+		// one attester for the whole run, and the same anonymous origin ID throughout: the ID must not
+		// depend on what the attester has seen before
+		att := c08attester()
 		if err := att.VerifyRequest(*st.Request(), blind, st.ClientKey(), []byte("anon")); err != nil {
 			return "err-verify"
 		}
@@ -69,6 +70,15 @@ func init() {
 		}
 		return "ok " + hxv(idx)
 	}
+}
+
+var c08att *type3.RateLimitedAttester
+
+func c08attester() *type3.RateLimitedAttester {
+	if c08att == nil {
+		c08att = type3.NewRateLimitedAttester(newMemCache())
+	}
+	return c08att
 }
 
 func runC08(c *Ctx) {
@@ -123,9 +133,9 @@ func runC08(c *Ctx) {
 		if p%3 == 0 {
 			cl2 := newT3Client(r)
 			o := c.Run("c08.id", hx(cl2.pubEnc), hx(ikBytes), hx(cl2.secret), hx(r.Bytes(48)), hx(r.Bytes(32)), "-", hx([]byte("a.example")), "0")
-			c.Direct(o != first, "distinct clients share an ID for one index key", map[string]any{"indexKey": hx(ikBytes)})
+			c.Direct(strings.HasPrefix(o, "ok ") && o != first, "distinct clients share an ID for one index key (or the flow failed)", map[string]any{"indexKey": hx(ikBytes), "impl": o})
 			o2 := c.Run("c08.id", hx(cl.pubEnc), hx(r.Bytes(48)), hx(cl.secret), hx(r.Bytes(48)), hx(r.Bytes(32)), "-", hx([]byte("a.example")), "0")
-			c.Direct(o2 != first, "distinct index keys share an ID for one client", map[string]any{"client": hx(cl.pubEnc)})
+			c.Direct(strings.HasPrefix(o2, "ok ") && o2 != first, "distinct index keys share an ID for one client (or the flow failed)", map[string]any{"client": hx(cl.pubEnc), "impl": o2})
 		}
 		// FinalizeIndex alone with adversarial encodings
 		ik, _ := ecdsa.CreateKey(elliptic.P384(), ikBytes)
